@@ -25,6 +25,7 @@ import Mathlib.Data.Matrix.Mul
 import Mathlib.Algebra.Order.Ring.Defs
 import Mathlib.Algebra.Order.Field.Basic
 import Mathlib.Algebra.Order.Ring.Abs
+import Mathlib.Algebra.BigOperators.Fin
 
 namespace MiciVerif.Constrained
 open Matrix
@@ -274,12 +275,18 @@ structure StepSys (K : Type*) (n c : Nat) extends Oracles K n c where
   /-- `system.h2_flow(state, dt)` -/
   h2flow : K → Vec K n × Vec K n → Except Fault (Vec K n × Vec K n)
 
-inductive StepOutcome (K : Type*) (n : Nat)
-  | ok (pos mom : Vec K n)
+inductive StepError
+  /-- `ConvergenceError` from a projection solve -/
   | convergenceError (r : Reason)
+  /-- `NonReversibleStepError` from the reverse check -/
   | nonReversible
   /-- `ValueError`/`LinAlgError` outside a solver, or the solver's `UnboundLocalError` -/
   | otherError
+  deriving DecidableEq, Repr
+
+inductive StepOutcome (K : Type*) (n : Nat)
+  | ok (pos mom : Vec K n)
+  | error (e : StepError)
 
 /-- `system.project_onto_cotangent_space(mom, state)`; `gram(state).inv` through the inverse
 oracle. -/
@@ -309,7 +316,7 @@ structure StepCfg (K : Type*) where
 
 /-- `_h2_flow_retraction_onto_manifold` -/
 def retract (S : StepSys K n c) (C : StepCfg K) (dt : K) (pos mom : Vec K n) :
-    Except (StepOutcome K n) (Vec K n × Vec K n) :=
+    Except StepError (Vec K n × Vec K n) :=
   match S.h2flow dt (pos, mom) with
   | .error _ => .error .otherError
   | .ok (pos1, mom1) =>
@@ -320,7 +327,7 @@ def retract (S : StepSys K n c) (C : StepCfg K) (dt : K) (pos mom : Vec K n) :
 
 /-- the `for i in range(n_inner_step)` loop of `_step_b` -/
 def stepBLoop (S : StepSys K n c) (C : StepCfg K) (dt : K) :
-    Nat → Vec K n → Vec K n → Except (StepOutcome K n) (Vec K n × Vec K n)
+    Nat → Vec K n → Vec K n → Except StepError (Vec K n × Vec K n)
   | 0, pos, mom => .ok (pos, mom)
   | k + 1, pos, mom =>
     match retract S C dt pos mom with
@@ -343,15 +350,91 @@ def stepBLoop (S : StepSys K n c) (C : StepCfg K) (dt : K) :
 def step (S : StepSys K n c) (C : StepCfg K) (nInner : Nat) (t : K) (pos mom : Vec K n) :
     StepOutcome K n :=
   match stepA S (t * (1 / 2)) pos mom with
-  | .error _ => .otherError
+  | .error _ => .error .otherError
   | .ok (pos1, mom1) =>
   match stepBLoop S C (t / (nInner : K)) nInner pos1 mom1 with
-  | .error e => e
+  | .error e => .error e
   | .ok (pos2, mom2) =>
   match stepA S (t * (1 / 2)) pos2 mom2 with
-  | .error _ => .otherError
+  | .error _ => .error .otherError
   | .ok (pos3, mom3) => .ok pos3 mom3
 
 end Solvers
+
+
+/-! ### executable instances (used by the drivers; `K = ℚ`)
+
+Quadric constraints `c_k(q) = ½ qᵀ A_k q + b_k·q + d_k` (linear for `A_k = 0`; spheres,
+ellipsoids, hyperboloids, … otherwise), the maximum norm, and a Gauss–Jordan inverse whose
+result is *checked* (`A * X = 1` is decided) before it is handed out. -/
+
+section Exec
+variable [Field K] {n c : Nat}
+
+structure Quadrics (K : Type*) (n c : Nat) where
+  A : Vector (Mat K n n) c
+  B : Mat K c n
+  d : Vec K c
+
+def Quadrics.constr (Q : Quadrics K n c) (q : Vec K n) : Vec K c :=
+  Vector.ofFn fun k : Fin c =>
+    (1 / 2) * (q.fn ⬝ᵥ (vec ((Q.A[k.val]).fn *ᵥ q.fn)).fn) + (Q.B[k.val]).fn ⬝ᵥ q.fn + Q.d[k.val]
+
+def Quadrics.jacob (Q : Quadrics K n c) (q : Vec K n) : Mat K c n :=
+  Vector.ofFn fun k : Fin c => vec ((Q.A[k.val]).fn *ᵥ q.fn + (Q.B[k.val]).fn)
+
+/-- matrix-Hessian product of the quadrics (Hessians are the constant `A_k`, assumed symmetric):
+`mhp(m)_l = Σ_k Σ_j m[k,j] A_k[j,l]`. -/
+def Quadrics.mhp (Q : Quadrics K n c) (m : Mat K c n) : Vec K n :=
+  vec fun l => ∑ k : Fin c, ((m[k.val]).fn ᵥ* (Q.A[k.val]).fn) l
+
+/-- `maximum_norm` -/
+def maxNorm [LinearOrder K] {m : Nat} (v : Vec K m) : K :=
+  v.toList.foldl (fun a x => max a |x|) 0
+
+/-- Gauss–Jordan elimination on the augmented matrix `[A | 1]` (first non-zero pivot). -/
+def gaussJordan [DecidableEq K] (m : Nat) (A : Array (Array K)) : Option (Array (Array K)) :=
+  haveI : Inhabited K := ⟨0⟩
+  Id.run do
+    let mut a : Array (Array K) :=
+      A.mapIdx fun i row => row ++ (Array.range m).map fun j => if i = j then (1 : K) else 0
+    for col in [0:m] do
+      let mut piv : Option Nat := none
+      for r in [col:m] do
+        if piv.isNone && (a[r]!)[col]! ≠ 0 then piv := some r
+      match piv with
+      | none => return none
+      | some r =>
+        let tmp := a[r]!
+        a := a.set! r a[col]!
+        a := a.set! col tmp
+        let p := (a[col]!)[col]!
+        a := a.set! col ((a[col]!).map (· / p))
+        for r2 in [0:m] do
+          if r2 ≠ col then
+            let f := (a[r2]!)[col]!
+            if f ≠ 0 then
+              a := a.set! r2 (Array.zipWith (fun x y => x - f * y) a[r2]! a[col]!)
+    return some (a.map fun row => row.extract m (2 * m))
+
+/-- Inverse as checked data: `X` is only returned after `A * X = 1` has been decided. -/
+def checkedInv [DecidableEq K] {m : Nat} (A : Mat K m m) : Except Fault (Mat K m m) :=
+  haveI : Inhabited K := ⟨0⟩
+  match gaussJordan m (A.toArray.map (·.toArray)) with
+  | none => .error .linAlgError
+  | some X =>
+    let Xm : Mat K m m := Vector.ofFn fun i => Vector.ofFn fun j => (X[i.val]!)[j.val]!
+    if A.fn * Xm.fn = 1 then .ok Xm else .error .linAlgError
+
+theorem checkedInv_correct [DecidableEq K] {m : Nat} (A X : Mat K m m)
+    (h : checkedInv A = .ok X) : A.fn * X.fn = 1 := by
+  unfold checkedInv at h
+  split at h
+  · cases h
+  · split_ifs at h with hc
+    cases h
+    exact hc
+
+end Exec
 
 end MiciVerif.Constrained
